@@ -46,6 +46,10 @@ def check_case(ctx, impl, rows, r, obs, okinds, mode, coins=None, seed=0):
                 finally:
                     impl.ST.stabilizer_measure = old
     except R.TapeExhausted:
+        if mode == 'tape' and coins is not None:
+            # the tape holds exactly one coin per undetermined outcome (computed by the oracle): asking for more is a failure
+            ctx.fail('stabilizer_measure', 'the kernel draws more random numbers than there are undetermined outcomes (%d coins supplied)' % len(coins),
+                     dict(rows=rows, r=r, obs=obs, coins=coins))
         return None
     except Exception as e:
         ctx.fail('StabilizerState.measure', 'implementation raised %r' % e, dict(rows=rows, r=r, obs=obs))
@@ -75,6 +79,18 @@ def check_case(ctx, impl, rows, r, obs, okinds, mode, coins=None, seed=0):
         if got != want:
             ctx.fail(site, 'post-measurement state is not the normalised projection (rank or stabilizer group differs)',
                      dict(replay, want_r=want[0], want_group=want[1], got_group=got[1])); bad = True
+    # tape mode: the k-th undetermined outcome is decided by the k-th coin drawn (and by nothing else), every coin is used
+    if mode == 'tape' and coins is not None:
+        used = 0
+        for k, (kd, o_, ob) in enumerate(zip(kinds, out, obs)):
+            if kd != 'determined':
+                want_o = (coins[used] + ob[1] // 2) % 2 if used < len(coins) else None
+                if want_o is not None and o_ != want_o:
+                    ctx.fail(site, 'undetermined outcome %d does not follow its own coin (coin %d of the call is %d, outcome bit %d): coins are not independent'
+                             % (k, used, coins[used], o_), replay); bad = True
+                used += 1
+        if tape.pos != used or tape.foreign:
+            ctx.fail(site, 'the kernel consumed %d random bits (%d foreign draws) for %d undetermined outcomes' % (tape.pos, tape.foreign, used), replay); bad = True
     # repeat: same outcomes, probability one, same state
     if not bad:
         try:
@@ -217,3 +233,43 @@ def run(ctx):
             dm = rho if tag == 'before' else rho2
             ctx.q('density_matrix', 'densitypoly %d %s' % (rr, H.erows_ops(rws)), [(O.from_gp(g, p), complex(c)) for g, p, c in zip(dm.gs, dm.ps, dm.cs)],
                   lambda s_: [(O.from_gp(g, p), complex(float(c[0]), float(c[1]))) for g, p, c in E.dpoly(s_)])
+    # post-selection = projection onto a chosen outcome: probability Tr(P rho), projected state, and the same post-selection
+    # repeated has probability one; observables of either sign, both outcomes, determined and undetermined cases
+    for _ in range(ctx.budget(80, 900)):
+        n = rng.choice([1, 2, 2, 3, 3])
+        rows, _r = G.rand_tableau(rng, n, 0)
+        if rng.random() < 0.4:            # an element of the group up to sign: the determined case
+            Pk = O.oprod([rows[i] for i in range(n) if rng.random() < 0.6] or [rows[0]], n)
+            Pk = (Pk[0], (Pk[1] + 2 * rng.randrange(2)) % 4)
+        else:
+            Pk = G.rand_herm(rng, n, nonid=True)
+        res = rng.randrange(2)
+        d = 2 ** n
+        rho = O.dense_state(rows[0:n], n)
+        Pm = (np.eye(d) + (-1) ** res * O.dense(Pk)) / 2
+        pr = float(np.real(np.trace(Pm @ rho)))
+        st = impl.state(rows, 0)
+        ctx.case(('postselect', tuple(rows), Pk, res), pr not in (0.0, 1.0), sample=dict(op='postselect', N=n, P=Pk, outcome=res, born=round(pr, 6)))
+        ctx.count('postselect:' + ('impossible' if pr < 1e-9 else 'certain' if pr > 1 - 1e-9 else 'half') + (':negative-observable' if Pk[1] == 2 else ''))
+        try:
+            got = float(st.postselect(impl.pauli(Pk), res))
+        except Exception as e:
+            ctx.fail('StabilizerState.postselect', 'implementation raised %r' % e, dict(rows=rows, P=Pk, outcome=res)); continue
+        if abs(got - pr) > 1e-9:
+            ctx.fail('StabilizerState.postselect', 'postselect(%s, %d) returned probability %s, Tr(P rho) = %s' % (Pk, res, got, round(pr, 6)), dict(rows=rows, P=Pk, outcome=res)); continue
+        if pr < 1e-9:
+            continue
+        post = impl.ops_of(st)
+        inv = O.tableau_invariant(post, n, int(st.r))
+        if inv is not None or int(st.r) != 0:
+            ctx.fail('StabilizerState.postselect', 'the state after post-selection is not a valid pure tableau: %s' % inv, dict(rows=rows, P=Pk, outcome=res, post=post)); continue
+        if not np.allclose(O.dense_state(post[0:n], n), Pm @ rho @ Pm / pr):
+            ctx.fail('StabilizerState.postselect', 'the state after post-selection is not P rho P / Tr(P rho)', dict(rows=rows, P=Pk, outcome=res, post=post)); continue
+        try:
+            again = float(st.postselect(impl.pauli(Pk), res))
+            other = float(impl.state(post, 0).postselect(impl.pauli(Pk), 1 - res))
+        except Exception as e:
+            ctx.fail('StabilizerState.postselect', 'repeating the post-selection raised %r' % e, dict(rows=rows, P=Pk, outcome=res)); continue
+        if abs(again - 1.0) > 1e-9 or abs(other) > 1e-9:
+            ctx.fail('StabilizerState.postselect', 'after post-selecting %s = %s the same post-selection has probability %s (must be 1) and the opposite one %s (must be 0)'
+                     % (Pk, '+1' if res == 0 else '-1', again, other), dict(rows=rows, P=Pk, outcome=res))
